@@ -181,7 +181,10 @@ def run(ctx):
     ctx.attempt("R10-APPEND", c.file, "POO", "learner lists", check_append_only, ctx)
     ctx.attempt("R10-IDX", c.file, "POO.receive_reward", "indices", check_index, ctx)
     ctx.attempt("R10-MEAN", c.file, "POO.receive_reward", "running means", check_means, ctx)
-    from . import c07, c15
+    from . import c07, c14, c15
+    c14.import_iso(ctx, ["POO"], "R10-APPEND", "the learner, score and count lists belong to one POO object (a fresh POO has no learners)")
+    c15.import_taint(ctx, ["POO", "T_HOO", "HCT", "VHCT"], "R10-TIME",
+                     "get_last_point is the next proposal of the best learner only if a learner's choice does not depend on the time label it is given")
     tmp = Ctx(ctx.prop, ctx.tier, ctx.seed, model)
     c07.check_wrappers(tmp)
     c15.check_idem(tmp)
